@@ -39,6 +39,11 @@ Mixed == << G("TimeInterval", <<0, 2>>), G("TimeInterval", <<1, 4>>), G("TimeInt
             G("BoundingBox", <<0, 0, 2, 2>>), G("BoundingBox", <<1, 1, 3, 3>>), G("BoundingBox", <<2, 0, 4, 2>>),
             G("BoundingBox", <<0, 2, 1, 3>>) >>
 
+\* zero-extent geometries (with zero buffers): a zero-length interval, a TimeStamp, a zero-duration box -- next to
+\* proper ones whose affinities are fractions
+Degenerate == << G("TimeInterval", <<1, 1>>), G("TimeStamp", 1), G("BoundingBox", <<1, 0, 1, 2>>),
+                 G("TimeInterval", <<0, 2>>), G("TimeInterval", <<1, 3>>), G("BoundingBox", <<0, 0, 2, 2>>) >>
+
 Idx == 1..Len(Geoms)
 SeqsUpTo(k) == UNION {[1..l -> Idx] : l \in 0..k}
 Inputs == {x \in SeqsUpTo(MaxN) \X SeqsUpTo(MaxM) : Len(x[1]) + Len(x[2]) <= MaxTotal}
@@ -92,5 +97,8 @@ LawCompleteIsOptimal == pc = "solve" => \A P \in BestComplete : Val(W, P) = OptV
 LawRecursionIsOptVal == pc = "solve" => OptValRec(W, n, m) = OptVal(W, n, m)
 LawZeroPairsAreFree == pc = "solve" => \A P \in BestComplete : Val(W, {p \in P : W[p[1]][p[2]] > 0}) = Val(W, P)
 LawSelfIsOne == pc = "solve" => \A i \in 1..n, j \in 1..m : (Src[i] = Tgt[j]) => AffRat(Src[i], Tgt[j])[1] = AffRat(Src[i], Tgt[j])[2]
+\* a zero-extent geometry has affinity 0 with everything (ratio 0/u, or 0/0 guarded): it always ends up unpaired
+LawZeroExtentUnpaired == Done => \A k \in DOMAIN out : IsPair(out[k]) =>
+    LET a == Src[Some(out[k].s)]  b == Tgt[Some(out[k].t)] IN TimeExtent(a, Aff!FMAXT)[1] < TimeExtent(a, Aff!FMAXT)[2] /\ TimeExtent(b, Aff!FMAXT)[1] < TimeExtent(b, Aff!FMAXT)[2]
 Terminates == <>Done
 =============================================================================
